@@ -12,6 +12,7 @@ import (
 	"fmt"
 	"math/rand"
 	"os"
+	"path/filepath"
 	"strconv"
 	"strings"
 )
@@ -264,6 +265,69 @@ func Ite(c bool, a, b int) int {
 	}
 	return b
 }
+
+// ---------------------------------------------------------------------------
+// file system: under the engine an in-memory model, natively the real one
+// below a scratch root.
+
+var fsRoot string
+
+// FSRoot is the directory below which a harness places its files.
+func FSRoot() string {
+	if fsRoot == "" {
+		d, err := os.MkdirTemp("", "gosx-fsroot")
+		if err != nil {
+			panic(err)
+		}
+		fsRoot = d
+	}
+	return fsRoot
+}
+
+// FSCleanup removes the native scratch root (no-op under the engine).
+func FSCleanup() {
+	if fsRoot != "" {
+		os.RemoveAll(fsRoot)
+		fsRoot = ""
+	}
+}
+
+func FSMkdir(path string) {
+	if err := os.MkdirAll(path, 0o755); err != nil {
+		panic(err)
+	}
+}
+
+func FSWriteFile(path, content string) {
+	FSMkdir(filepath.Dir(path))
+	if err := os.WriteFile(path, []byte(content), 0o644); err != nil {
+		panic(err)
+	}
+}
+
+func FSExists(path string) bool {
+	_, err := os.Lstat(path)
+	return err == nil
+}
+
+func FSReadFile(path string) (string, bool) {
+	b, err := os.ReadFile(path)
+	return string(b), err == nil
+}
+
+// FSList lists everything below prefix (sorted absolute paths).
+func FSList(prefix string) []string {
+	var out []string
+	filepath.Walk(prefix, func(p string, info os.FileInfo, err error) error {
+		if err == nil && p != prefix {
+			out = append(out, p)
+		}
+		return nil
+	})
+	return out
+}
+
+func Setenv(k, v string) { os.Setenv(k, v) }
 
 // ---------------------------------------------------------------------------
 // scripted random source
